@@ -69,3 +69,5 @@ Proof.
   intros Hin. apply in_iset_remove in Hin; tauto.
 Qed.
 End ISet.
+
+(* EXTRACT: iset_insert iset_extend iset_of_list iset_remove memb *)
